@@ -297,7 +297,7 @@ def main(argv=None):
         if any(g[2] == name and g[3] == json.dumps(inst, sort_keys=True) for g in groups):
             continue  # already reported through the symbolic route
         viol += 1
-        rp = os.path.join(ROOT, 'replays', f'{prop}_{name}_native_{abs(hash(json.dumps(inst, sort_keys=True))) % 10**8}.json')
+        rp = os.path.join(ROOT, 'replays', f'{prop}_{_safe(name)}_native_{abs(hash(json.dumps(inst, sort_keys=True))) % 10**8}.json')
         with open(rp, 'w') as f:
             json.dump(dict(property=prop, contract=name, module=modname, index=i, inst=inst, obligation=fl[0], model=None,
                            native_seed=nr['seed'], failed_clauses=fl, note='contract evaluated natively (run-time assertion on the real code) fails while the symbolic proof passed'), f, indent=1, default=str)
@@ -339,9 +339,15 @@ def main(argv=None):
     return exit_code
 
 
+def _safe(name):
+    import re
+
+    return re.sub(r'[^A-Za-z0-9_.\[\]-]+', '_', name)
+
+
 def write_replay(prop, modname, i, name, inst, ob, mutant):
     h = abs(hash((name, json.dumps(inst, sort_keys=True), ob['name']))) % 10**8
-    rp = os.path.join(ROOT, 'replays', f'{prop}_{name}_{h}.json')
+    rp = os.path.join(ROOT, 'replays', f'{prop}_{_safe(name)}_{h}.json')
     with open(rp, 'w') as f:
         json.dump(dict(property=prop, contract=name, module=modname, index=i, inst=inst, obligation=ob['name'], job_kind=ob.get('job_kind'),
                        failed_obligation=f'{prop}.{name}.{ob["name"]}', model=ob.get('model'), backend=ob['backend'],
